@@ -72,6 +72,11 @@ def argmaxIdx (xs : List Rat) : Nat :=
   | none => 0
   | some m => xs.idxOf m
 
+/-! Reducers / selectors the translation of `SplineCV.fit` (Gen/ModelSel.lean) may be written in (`np.mean` and `np.argmax` are what the source uses). -/
+def listMean (s : List Rat) : Rat := s.sum / (s.length : Rat)
+def listMaxD (s : List Rat) : Rat := (listMax s).getD 0
+def listMinD (s : List Rat) : Rat := (listMin s).getD 0
+
 /-- SplineCV: candidate with the highest mean cross-validated score (first among ties). -/
 def splineCVSelect (scores : List (List Rat)) : Nat :=
   argmaxIdx (scores.map fun s => s.sum / (s.length : Rat))
